@@ -825,7 +825,16 @@ func runC16(c *Ctx) {
 	c.Rule("C16.F12", "SIBLINGS", "gas returned never exceeds gas supplied: an opcode that hands the callee the call stipend when value is non-zero (opCall, opCallCode add params.CallStipend to the callee's gas) is priced by a gas function that charges the value-transfer surcharge in that case (gasCall, gasCallCode contain params.CallValueTransferGas). The stipend is free gas for the callee; without the surcharge every such call to an address without code hands back about 1600 gas more than it cost")
 	c.Min(2)
 	{
-		hasConst := func(fn *ssa.Function, k int64) bool {
+		var hasConstD func(fn *ssa.Function, k int64, depth int) bool
+		hasConst := func(fn *ssa.Function, k int64) bool { return hasConstD(fn, k, 0) }
+		hasConstD = func(fn *ssa.Function, k int64, depth int) bool {
+			if depth < 1 {
+				for _, ci := range callInstrs(fn) {
+					if g := ci.Common().StaticCallee(); g != nil && g.Pkg == fn.Pkg && g.Blocks != nil && g != fn && hasConstD(g, k, depth+1) {
+						return true
+					}
+				}
+			}
 			for _, in := range allInstrs(fn) {
 				for _, op := range in.Operands(nil) {
 					if op == nil || *op == nil {
